@@ -471,6 +471,49 @@ func runC02(c *Ctx, r *Run) {
 		r.Unresolved("SECRET-1", "protocols/frost/keygen.(*round3).Finalize")
 	}
 
+	// ID-2: the mapping itself converts the whole identifier
+	if fn := c.LookupMethod("pkg/party", "ID", "Scalar"); fn != nil {
+		name := c.FuncName(fn)
+		r.Analysed(name)
+		id := ssa.Value(fn.Params[0])
+		var sb *ssa.Call
+		for _, call := range callsNamed(fn, "SetBytes") {
+			sb = call
+		}
+		whole, why := false, "no SetBytes conversion of the identifier"
+		if sb != nil {
+			whole, why = true, ""
+			arg := argsOf(sb)[0]
+			if !dependsOn(arg, func(v ssa.Value) bool { return v == id }) {
+				whole, why = false, "the converted bytes do not come from the identifier"
+			}
+			dependsOn(arg, func(v ssa.Value) bool {
+				switch x := v.(type) {
+				case *ssa.Slice:
+					if x.Low != nil || x.High != nil {
+						whole, why = false, "only a sub-slice of the identifier's bytes is converted"
+					}
+				case *ssa.Phi:
+					whole, why = false, "the converted bytes depend on a branch (a length-dependent shortcut)"
+				}
+				return false
+			})
+		}
+		r.Check("ID-1", name+"|whole identifier", c.Pos(fn.Pos()), whole, "the scalar is the whole identifier's bytes as one integer (reduced by SetNat), so distinct identifiers with distinct residues get distinct points",
+			why+": distinct identifiers whose images mod q differ are given the same evaluation point; their shares coincide and subsets containing both cannot reconstruct")
+		retOK := false
+		for _, ret := range returnsOf(fn) {
+			if call, ok := stripConv(ret.Results[0]).(*ssa.Call); ok {
+				if o := calleeObj(call); o != nil && o.Name() == "SetNat" && sb != nil && dependsOn(call, func(v ssa.Value) bool { return v == ssa.Value(sb) }) {
+					retOK = true
+				}
+			}
+		}
+		r.Check("ID-1", name+"|reduced by SetNat", c.Pos(fn.Pos()), retOK, "the result is group.NewScalar().SetNat(that integer): reduction modulo the group order, nothing else", "the returned scalar is not SetNat of the converted identifier")
+	} else {
+		r.Unresolved("ID-1", "pkg/party.(ID).Scalar")
+	}
+
 	r.Require("DEG-1", 5)
 	r.Require("DEG-2", 3)
 	r.Require("EVAL-P", 4)
